@@ -20,9 +20,11 @@ def bin_sizes(k):
 
 def plan(tier):
     if tier == "quick":
-        specs = [(2, [("dense", 1, 5)]), (3, [("dense", 1, 3)]), (4, [("dense", 1, 2)])]
+        specs = [(1, [("dense", 1, 6)]), (2, [("dense", 1, 5)]), (3, [("dense", 1, 3)]),
+                 (4, [("dense", 1, 2)])]
     else:
-        specs = [(2, [("dense", 1, 7)]), (3, [("dense", 1, 4)]), (4, [("dense", 1, 3)])]
+        specs = [(1, [("dense", 1, 9)]), (2, [("dense", 1, 7)]), (3, [("dense", 1, 4)]),
+                 (4, [("dense", 1, 3)])]
     tasks, descs = [], []
     for N, regimes in specs:
         tasks += pairs.regime_tasks(N, regimes, ["py"], extra={"mode": "lattice"}, nshards=32)
@@ -121,6 +123,15 @@ def eval_lattice(r, trains, edges, be="py", rank=()):
                          "total": len(alls)}, {"x": x, "y": y},
                         "PSTH is not the per-bin spike count on equally wide bins spanning the "
                         "recording (sum = number of spikes)", rank)
+    # the same objects once more: an earlier call must not have changed what a later one sees
+    try:
+        m2 = np.asarray(spk.merge_spike_trains(sts).spikes, float).tolist()
+        if m2 != sorted(alls):
+            r.violation(ID, "merge.second_call", be, "merge.second_call", case, sorted(alls), m2,
+                        "merging the same trains again after psth gives a different result", rank)
+    except Exception as e:
+        r.violation(ID, "merge.exception", be, "merge.exception.second", case, "a train",
+                    "%s: %s" % (type(e).__name__, e), "second merge raised", rank)
     if [(s.spikes.tobytes(), s.t_start, s.t_end) for s in sts] != before:
         r.violation(ID, "psth.modifies", be, "psth.modifies", case, "inputs unchanged",
                     [s.spikes.tolist() for s in sts], "psth modified its inputs", rank)
